@@ -248,6 +248,41 @@ def math_modf(I, fv, args, kw):
     return VTuple([VFloat(t=x.t - ip), VFloat(t=ip)])
 
 
+def _as_real(I, v):
+    v = I.resolve(v)
+    if isinstance(v, (VInt, VBool)):
+        v = B.call_type(I, B.VType("float"), [v], {})
+    if not isinstance(v, VFloat):
+        I.raise_py("builtins.TypeError", "must be real number")
+    return v
+
+
+def math_copysign(I, fv, args, kw):
+    used(I, "math.copysign (float treated as exact rational: a zero second argument counts as positive, i.e. no negative zero)")
+    x, y = _as_real(I, args[0]), _as_real(I, args[1])
+    if x.c is not None and y.c is not None:
+        import math
+        return VFloat(c=math.copysign(x.c, y.c))
+    xt, yt = x.term(), y.term()
+    ax = z3.If(xt >= 0, xt, -xt)
+    return VFloat(t=z3.If(yt >= 0, ax, -ax))
+
+
+def math_floor_ceil(which):
+    def f(I, fv, args, kw):
+        used(I, f"math.{which} (float treated as exact rational)")
+        x = I.resolve(args[0])
+        if isinstance(x, (VInt, VBool)):
+            return x
+        x = _as_real(I, x)
+        if x.c is not None:
+            import math
+            return mkint(getattr(math, which)(x.c))
+        fl = z3.ToInt(x.term())
+        return VInt(i=fl if which == "floor" else z3.If(z3.ToReal(fl) == x.term(), fl, fl + 1))
+    return f
+
+
 def time_time(I, fv, args, kw):
     used(I, "time.time")
     return VFloat(t=z3.Real(fresh("time")))
@@ -264,6 +299,9 @@ _LIB = {
     "struct.unpack_from": struct_unpack_from,
     "struct.calcsize": struct_calcsize,
     "math.modf": math_modf,
+    "math.copysign": math_copysign,
+    "math.floor": math_floor_ceil("floor"),
+    "math.ceil": math_floor_ceil("ceil"),
     "time.time": time_time,
     "logging.getLogger": logging_getLogger,
 }
@@ -410,6 +448,9 @@ def _hash_digest(I, algo, n, data: VBytes):
 def hashlib_new(algo, n):
     def f(I, fv, args, kw):
         data = I.resolve(args[0]) if args else VBytes([])
+        from .values import VAny as _VAny
+        if isinstance(data, _VAny):
+            data = B.make_bytes(I, [data], "bytes")
         if not isinstance(data, VBytes):
             I.raise_py("builtins.TypeError", "object supporting the buffer API required")
         return ext_obj(I, "hash", algo=algo, n=n, data=data)
@@ -582,7 +623,7 @@ _LIB.update({
 })
 _EXT_ATTR.update({"hash": hash_attr, "aes": aes_attr})
 _LIB_PREFIX = {"hash.": hash_call, "aes.": aes_call}
-_CONSTS = {"Crypto.Cipher.AES.MODE_ECB": AES_MODE_ECB, "Crypto.Cipher.AES.MODE_CBC": AES_MODE_CBC}
+_CONSTS = {"Crypto.Cipher.AES.MODE_ECB": AES_MODE_ECB, "Crypto.Cipher.AES.MODE_CBC": AES_MODE_CBC, "Crypto.Cipher.AES.block_size": 16}
 
 
 # ===============================================================================================
@@ -755,7 +796,11 @@ def make_queue(I, cs, typ, name):
 def new_queue(I, fv, args, kw):
     from . import symlist
     items = symlist.make(I, I.contracts, "bytes", "queue_items", length=mkint(0))
-    return ext_obj(I, "queue", items=items, head=mkint(0), pred=None, cs=I.contracts, name="queue")
+    ms = args[0] if args else kw.get("maxsize")
+    ms = I.resolve(ms) if ms is not None else None
+    bounded = ms is not None and not (isinstance(ms, VInt) and ms.c is not None and ms.c <= 0)
+    used(I, "asyncio.Queue: FIFO; get_nowait raises QueueEmpty iff empty; get() returns the oldest item or, when empty, waits for the next item the protocol queues")
+    return ext_obj(I, "queue", items=items, head=mkint(0), pred=None, cs=I.contracts, name="queue", bounded=bounded)
 
 
 def queue_attr(I, ref, o, name):
@@ -792,6 +837,8 @@ def queue_call(I, fv, args, kw):
     if name in ("put_nowait", "get_nowait", "get"):
         I.log_write(("cont", fv.self_val.ref))
     if name == "put_nowait":
+        if o.meta.get("bounded") and I.path.choose(2, "queue_full") == 1:
+            I.raise_py("asyncio.QueueFull", "full")     # a bounded queue may be full (its fill level depends on the consumer)
         symlist.method(I, o.meta["items"], I.hobj(o.meta["items"]), "append", [args[0]], {})
         I.path.ghost.setdefault("events", {}).setdefault("queued", []).append(args[0])
         return NONE
@@ -873,7 +920,14 @@ def env_step(I):
             if I.path.choose(2, "peer_data") == 1:
                 n = z3.Int(fresh("rx_len"))
                 I.path.assume(z3.And(n >= 0, n <= MAXLEN))
-                I.call(I.getattr_(proto, "data_received"), [VBytes([View(z3.Const(fresh("rx"), B.ARR), 0, n)])], {})
+                from .interp import PyRaise
+                try:
+                    I.call(I.getattr_(proto, "data_received"), [VBytes([View(z3.Const(fresh("rx"), B.ARR), 0, n)])], {})
+                except PyRaise:
+                    # asyncio: an exception raised by a protocol callback goes to the loop's exception handler and the transport is
+                    # closed; it does not reach the coroutine that is waiting (effects of the callback up to the raise stay)
+                    used(I, "asyncio: an exception raised inside a protocol callback is reported to the event loop's exception handler "
+                            "(transport closed), not to the coroutine waiting on the connection")
     for ref, o in list(I.path.heap.items()):
         if o.kind == "ext" and o.meta.get("tag") == "transport":
             c = o.meta["closing"]
